@@ -1,16 +1,100 @@
-(* C03 — StepMania writing.  Property theorems only. *)
+(* C03 — StepMania writing.  Property theorems only: each is closed by [exact] from Proofs/SMProofs.v, or by
+   vm_compute for obligations on the tables regenerated from the live classes. *)
 From Coq Require Import String ZArith QArith Qround Qabs List Bool.
-From RV Require Import Base.PyNum Timing.Snapper Timing.Snap Timing.TimingMap Timing.Integrate
-  Formats.SMText Formats.SM Formats.SMSpec Generated.Tables.
+From RV Require Import Base.PyNum Timing.Snapper Timing.Snap Timing.TimingMap Timing.Reseat Timing.Integrate
+  Formats.SMText Formats.SM Formats.SMSpec Generated.Tables Proofs.SMWitness Proofs.SMProofs.
 Import ListNotations.
 Open Scope Q_scope.
 
-Definition live_conf : smconf :=
-  mkConf Tables.sm.hit_string Tables.sm.hold_string_head Tables.sm.hold_string_tail Tables.sm.roll_string_head
-         Tables.sm.roll_string_tail Tables.sm.mine_string Tables.sm.lift_string Tables.sm.fake_string
-         Tables.sm.keysound_string Tables.sm.metronome Tables.sm.max_snap Tables.sm.max_keys
-         Tables.sm.chart_keys Tables.snapper_table.
-
+(* ---- table obligations ---- *)
 Theorem C03_constants_are_reference :
   live_conf = ref_conf Tables.snapper_table Tables.sm.chart_keys.
 Proof. vm_compute. reflexivity. Qed.
+Theorem C03_cap_positive : (0 < k_max_snap live_conf)%Z.
+Proof. vm_compute. reflexivity. Qed.
+Theorem C03_metronome_is_4 : k_metronome live_conf = 4%Z.
+Proof. vm_compute. reflexivity. Qed.
+
+(* ---- per-measure LCM with the cap: never above the cap; below the cap it is a common multiple of all denominators ---- *)
+Theorem C03_den_max_le_cap : forall dens : list Z, (den_max_of live_conf dens <= k_max_snap live_conf)%Z.
+Proof. exact (den_max_le_cap live_conf). Qed.
+
+Theorem C03_den_max_below_cap_divides : forall (dens : list Z) (x : Z),
+  Forall (fun y => 0 < y)%Z dens -> (den_max_of live_conf dens < k_max_snap live_conf)%Z -> In x dens ->
+  (x | den_max_of live_conf dens)%Z.
+Proof. exact (den_max_below_cap_divides live_conf C03_cap_positive). Qed.
+
+(* ---- row index: integral, and at the object's position, whenever its denominator divides the row count;
+   otherwise (cap) rounded down to the row grid: early by less than one row (1/96 beat for 384 rows) ---- *)
+Theorem C03_row_integral : forall num den dm : Z, (0 < den)%Z -> (den | dm)%Z -> (num * dm / den * den = num * dm)%Z.
+Proof. exact row_integral. Qed.
+
+Theorem C03_row_position_exact : forall num den dm : Z, (0 < den)%Z -> (0 < dm)%Z -> (den | dm)%Z ->
+  inject_Z (num * dm / den) / inject_Z dm == inject_Z num / inject_Z den.
+Proof. exact row_position_exact. Qed.
+
+Theorem C03_row_truncation_bound : forall num den dm : Z, (0 < den)%Z -> (0 < dm)%Z -> (0 <= num)%Z ->
+  inject_Z (num * dm / den) / inject_Z dm <= inject_Z num / inject_Z den /\
+  inject_Z num / inject_Z den < (inject_Z (num * dm / den) + 1) / inject_Z dm.
+Proof. exact row_truncation_bound. Qed.
+
+(* the (measure, num/den) the writer derives from a cumulative beat q is q's measure and its position inside it *)
+Theorem C03_place_position : forall (q : Q) (col ch : Z),
+  let p := place live_conf q col ch in
+  (0 < p_den p)%Z /\ (0 <= p_num p < p_den p)%Z /\
+  inject_Z (p_num p) / inject_Z (p_den p) == (q - 4 * inject_Z (p_measure p)) / 4 /\
+  p_measure p = Qfloor (q / 4).
+Proof. exact (fun q col ch => place_position live_conf q col ch C03_metronome_is_4). Qed.
+
+(* ---- header: an item "#TAG:value" is read back as (TAG, value) whatever the value contains after the first colon ---- *)
+Theorem C03_item_roundtrip : forall tag v : text, ~ In 58%Z tag ->
+  parse_item ((35%Z :: tag) ++ 58%Z :: v) = Some (35%Z :: tag, v).
+Proof. exact item_roundtrip. Qed.
+
+(* ---- padding of empty measures: rows are keys wide iff the repaired variant is used or the chart has 4 keys ---- *)
+Theorem C03_pad_rows_width : forall (v : variant) (k : Z), (0 <= k)%Z ->
+  (forall r, In r (split_on 10 (pad_measure live_conf v (Some k))) -> Z.of_nat (length r) = k) <-> (v_pad v = true \/ k = 4%Z).
+Proof. exact (fun v k => pad_rows_width live_conf v k C03_metronome_is_4). Qed.
+
+(* ---- sm_write_wf / sm_write_denotes are REFUTED for the pinned tree by two defect classes (witnesses are real
+   inputs with the text the implementation wrote), and hold on the same inputs for the repaired variants ---- *)
+Theorem C03_sm_write_wf_refuted_selectable :
+  exists s txt, s_sel s = false /\ renders tol9 (sm_write live_conf pinned s) txt = true /\ wf_sm_textb txt = false.
+Proof. exact sm_write_wf_refuted_selectable. Qed.
+Theorem C03_sm_write_selectable_repaired :
+  renders tol9 (sm_write live_conf (mkVar true false false) w_sel_set) w_sel_txt_repaired = true /\
+  match sm_denote w_sel_txt_repaired with Some d => write_spec (1 # 1000000) true w_sel_set d | None => false end = true.
+Proof. exact sm_write_selectable_repaired. Qed.
+Theorem C03_sm_write_wf_refuted_padding :
+  exists s txt, renders tol9 (sm_write live_conf pinned s) txt = true /\ wf_sm_textb txt = false.
+Proof. exact sm_write_wf_refuted_padding. Qed.
+Theorem C03_sm_write_padding_repaired :
+  renders tol9 (sm_write live_conf (mkVar false true false) w_pad_set) w_pad_txt_repaired = true /\
+  match sm_denote w_pad_txt_repaired with Some d => write_spec (1 # 1000000) true w_pad_set d | None => false end = true.
+Proof. exact sm_write_padding_repaired. Qed.
+
+(* ---- sm_write_denotes, PARTIAL.  Full statement (not proved for all mapsets):
+       forall s toks txt, set_wf s -> selectable s \/ v_sel v -> (no empty measure \/ 4 keys \/ v_pad v) ->
+         sm_write live_conf v s = Some toks -> renders toks txt ->
+         exists d, sm_denote txt = Some d /\ write_spec tol (exact_regime s) s d = true.
+   Proved: every arithmetic step of it (LCM/cap, integral rows, truncation bound, place, item round trip, padding width);
+   missing: the induction over measures/rows tying fill_lines to denote_rows, and the step from the C10 theorems about
+   tm_beats to the per-object beats.  The full statement is evaluated in Coq on every generated mapset of every run
+   (Corr/RunC03.v: the implementation's text renders the model's tokens, and write_spec on sm_denote of that text). ---- *)
+Theorem C03_sm_write_denotes_partial : forall (dens : list Z) (num den : Z),
+  Forall (fun y => 0 < y)%Z dens -> In den dens -> (den_max_of live_conf dens < k_max_snap live_conf)%Z ->
+  (0 < den_max_of live_conf dens)%Z ->
+  inject_Z (num * den_max_of live_conf dens / den) / inject_Z (den_max_of live_conf dens) == inject_Z num / inject_Z den.
+Proof.
+  exact (fun dens num den Hp Hin Hlt Hpos =>
+           row_position_exact num den (den_max_of live_conf dens)
+             (proj1 (Forall_forall _ dens) Hp den Hin) Hpos
+             (den_max_below_cap_divides live_conf C03_cap_positive dens den Hp Hlt Hin)).
+Qed.
+
+(* non-vacuity: a 6-key mapset with two tempo points (the second mid-measure), every kind of object, a hold across
+   the tempo change: the pinned writer's text renders the model's tokens and denotes the mapset *)
+Example C03_example_in_domain :
+  renders tol9 (sm_write live_conf pinned w_ok_set) w_ok_txt = true /\
+  match sm_denote w_ok_txt with Some d => write_spec (1 # 1000000) false w_ok_set d | None => false end = true.
+Proof. exact sm_write_example. Qed.
